@@ -432,6 +432,42 @@ def io_wrapper_acks_transport_count(chk):
     chk.floor('io acks', n, 2)
 
 
+def scsv_refused_on_renegotiation(chk):
+    """RFC 5746 3.7: a server that receives TLS_EMPTY_RENEGOTIATION_INFO_SCSV (0x00FF) in the ClientHello of a *renegotiation* must
+    abort the handshake - the signalling suite is for initial handshakes only; accepting it lets a renegotiation proceed without
+    the renegotiated_connection binding.  Bytecode rule: the branch taken when a suite equals 0x00FF reads the `reneg` field and, when
+    it is non-zero, fails with BR_ERR_BAD_SECRENEG."""
+    from .. import t0
+    R = 'scsv-refused-on-renegotiation'
+    P = t0.Program('hs_server')
+    cv = build.const_values(['BR_ERR_BAD_SECRENEG'])
+    o_reneg = P.layouts.field(P.ctxname, 'eng.reneg')[0]
+    sites = []
+    for w, W in P.words.items():
+        l = list(W.ins.values())
+        for k, i in enumerate(l):
+            if i.kind == 'const' and i.arg == 0xFF and k + 2 < len(l) and l[k + 1].kind == 'native' and l[k + 1].name == '=' and l[k + 2].kind == 'jumpifnot':
+                sites.append((w, [x for x in l if l[k + 2].next <= x.pc < l[k + 2].arg]))
+    if not sites:
+        raise AnalysisBroken('hs_server: no comparison of a cipher suite with 0x00FF found')
+    for w, body in sites:
+        inst = 'hs_server W%d: suite 0x00FF during a renegotiation (reneg != 0) -> fail BR_ERR_BAD_SECRENEG' % w
+
+        def val(x):
+            return x.arg if x.kind == 'const' else P.const_word_value(x.arg) if x.kind == 'call' else None
+        okk = False
+        for k, x in enumerate(body):
+            if x.kind == 'native' and x.name == 'get8' and k >= 1 and val(body[k - 1]) == o_reneg and k + 3 < len(body) and body[k + 1].kind == 'jumpifnot':
+                guarded = [y for y in body if body[k + 1].next <= y.pc < body[k + 1].arg]
+                if any(val(y) == cv['BR_ERR_BAD_SECRENEG'] for y in guarded) and any(y.kind == 'native' and y.name == 'fail' for y in guarded):
+                    okk = True
+        if okk:
+            chk.ok(R, inst, P.src)
+        else:
+            chk.violation(R, inst, P.src, 'the 0x00FF branch does not test `reneg` / fail with error %d: a renegotiation ClientHello carrying the SCSV instead of the '
+                          'renegotiation_info extension is accepted unbound' % cv['BR_ERR_BAD_SECRENEG'], key='%s W%d' % (R, w))
+
+
 def no_renegotiation_option(chk):
     """BR_OPT_NO_RENEGOTIATION: "when disabled, renegotiation is declined with a no_renegotiation warning".  In both interpreters the
     post-handshake loop - the word that sends warning 100 - must consult that option: the bytecode tests engine flags by bit *index*
@@ -788,6 +824,7 @@ def run(tier):
     input_discarded_only_when_closing(chk)
     received_record_dispatch(chk)
     io_wrapper_acks_transport_count(chk)
+    scsv_refused_on_renegotiation(chk)
     fail_call_sites(chk)
     io_rules(chk)
     # the closure / renegotiation processor is resumed when a record has been sent (engine I/O transition table, shared with C01 / C06)
